@@ -70,6 +70,10 @@ def _v2_form(c, rng, mixed, force=None):
         return None
     v2name = force or rng.choice(names)
     style = rng.choice(["newfield", "newfield", "explicit", "infield"])
+    if force is None and rng.random() < 0.12:
+        # 2.0 style (no result name, named through NewFieldName) under the command's MPilot name
+        v2name = cmd
+        style = rng.choice(["newfield", "infield"])
     args = dict(c["args"])
     res = c["result"]
     out = {"cmd": v2name, "args": args, "result": None}
@@ -85,6 +89,10 @@ def _v2_form(c, rng, mixed, force=None):
             res = args["InFieldName"]
         else:
             args["NewFieldName"] = res
+    if cmd == "EEMSRead" and style != "explicit" and isinstance(args.get("InFieldName"), str) and rng.random() < 0.25:
+        # a column read under its own name, said twice
+        args["NewFieldName"] = args["InFieldName"]
+        res = args["InFieldName"]
     if rng.random() < 0.4:
         args["OutFileName"] = "ignored_out.csv"
         if rng.random() < 0.3:
@@ -217,7 +225,7 @@ def run_case(ctx, case):
     t2, t3, v2cmds = render_pair(model, rng, case["mixed"], case["style"])
     used = tuple(sorted(set(c["cmd"] for c in v2cmds if c["cmd"] in V2)))
     ctx.feature((used[:8], case["mixed"], case["style"], any(c["result"] is None for c in v2cmds)))
-    if not used:
+    if not used and not any(c["result"] is None for c in v2cmds):
         ctx.dontcare("no 2.0 command in this rendering")
         return
     ctx.count("translations_compared")
